@@ -347,9 +347,15 @@ func (p *parser) on_char_class(neg Token, _ Token, chars []Token, _ Token) *ast.
 		return r
 	}
 	addItem := func(b, e Token) {
+		from, to := toRune(b), toRune(e)
+		if from > to {
+			p.errs.Errorf(b.Pos,
+				"invalid character range %v-%v: the lower bound is above the upper bound",
+				string(b.Str), string(e.Str))
+		}
 		items = append(items, &ast.CharClassItem{
-			From: toRune(b),
-			To:   toRune(e),
+			From: from,
+			To:   to,
 		})
 	}
 
